@@ -192,6 +192,10 @@ def _memop(rng, pool, aligned, base_reg=31, window=64):
     m = rng.choice(LD + ST)
     w = WIDTH[m]
     off = rng.randrange(0, window, w if aligned else 1)
+    if rng.random() < 0.12:
+        # top of memory through x0 and a negative offset: the computed address is a negative integer
+        base_reg = 0
+        off = -rng.randrange(w, window + 1, w if aligned else 1)
     if m in LD:
         return {"m": m, "rd": rng.choice(pool), "rs1": base_reg, "imm": off}
     return {"m": m, "rs1": base_reg, "rs2": rng.choice(pool), "imm": off}
